@@ -60,9 +60,10 @@ def NameCase.ofStr (s : Str) : Option NameCase :=
   | "mixedPascalCase" => some .mixedPascal
   | _ => none
 
-/-- `text.original_case`: `re.sub(r"\W", "", v)` then `re.sub(r"^[^a-zA-Z_]+", "", v)` -/
+/-- `text.original_case`: `re.sub(r"\W", "", v)`, then only the characters `c` with
+`f"_{c}".isidentifier()` are kept, then `re.sub(r"^[^a-zA-Z_]+", "", v)` -/
 def originalCase (u : UEnv) (v : Str) : Str :=
-  (v.filter u.isWord).dropWhile (fun c => !(isAsciiAlpha c || c = '_'))
+  ((v.filter u.isWord).filter u.isXidContinue).dropWhile (fun c => !(isAsciiAlpha c || c = '_'))
 
 def pascalCase (v : Str) : Str := ((splitWords v).map titleA).flatten
 
